@@ -5,6 +5,8 @@ syntax/parser.go by the regenerated `Generated.Escape` facts and by corresponden
 -/
 import RegexVerif.Lemmas.Escape
 import RegexVerif.Lemmas.EscapeParse
+import RegexVerif.Lemmas.EscapeFull
+import RegexVerif.Lemmas.EscapeSpec
 
 namespace RegexVerif.Props.C19
 open RegexVerif RegexVerif.Escape RegexVerif.Lemmas.Escape
@@ -223,5 +225,313 @@ example : parseWhy {} asciiWord (escapeUnpadded asciiPrint [0x378, 120]) = .stop
 example : parseLit optsEcma asciiWord (escapeUnpadded asciiPrint [0x378, 120]) = some [117, 51, 55, 56, 120] := by
   decide
 example : parseLit {} asciiWord (escapeUnpadded asciiPrint [0x378, 97]) = some [0x378a] := by decide
+
+
+/-! ### "Escape yields a literal" on the FULL parser model (`Model/Parser.lean`)
+
+`escape_parses_as_literal` above is about `parseLit`, the small model of the parser restricted to the literal
+fragment.  The theorems of this section are about `Parser.parse` itself — the model of `syntax.Parse`
+(`countCaptures` + `scanRegex` and everything they call) that leg Pr compares with the Go parser on arbitrary
+patterns and that `Props.C10.parse_total` / the chain theorem are about. -/
+
+/-- **The literal a raw-tree node spells.**  `spells n w`: `n` is a literal leaf — a One (`[ch]`), a Multi (its
+    string), an Empty (`[]`), each without set and children (`Parser.leafRunes`) — or a Concatenate all of whose
+    children are such leaves and whose runes, read in pattern order, concatenate to `w` (`Parser.kidsRunes`; the
+    parser stores the children of a RightToLeft concatenation reversed: `reverseLeft`). -/
+def spells (n : Parser.RNode) (w : List Nat) : Prop :=
+  Parser.leafRunes n = some w ∨
+  (n.t = .concatenate ∧ Parser.kidsRunes (if n.o.r then n.kids.reverse else n.kids) = some w)
+
+instance (n : Parser.RNode) (w : List Nat) : Decidable (spells n w) := by unfold spells; exact inferInstance
+
+/-- the tree of a pattern without groups and alternatives around the node `c`: the root Capture 0 (slot 0, no
+    balancing slot) over the one-branch Alternate the parser always builds (`addGroup`; the raw tree is the tree
+    before any `reduce()`), all with the top-level options -/
+def literalRoot (opts : Parser.Opts) (c : Parser.RNode) : Parser.RNode :=
+  .mk .capture opts 0 [] none 0 (-1) [.mk .alternate opts 0 [] none 0 0 [c]]
+
+/-- **C19, "Escape yields a literal", on the full parser model.**  For every rune string `s` (any list of code
+    points: the pattern is a rune list in the model, validity of the runes is not needed), every oracle record, and
+    EVERY option set without IgnoreCase — all 256 combinations of Multiline, ExplicitCapture, Singleline,
+    IgnorePatternWhitespace, RightToLeft, ECMAScript, RE2, Unicode, with or without `MaintainCaptureOrder`; these
+    include the 16 combinations of `escape_parses_as_literal` — `Parse(Escape(s))` succeeds (no ErrorCode, no
+    fault, fuel not exhausted), its capture tables are those of a pattern without groups (slot 0 only), and its
+    tree is the root Capture 0 around a Concatenate that SPELLS `s`: every child is a One or a Multi node (a run
+    of unescaped runes becomes one node: One for a single rune, Multi for more; every escape `\c`, `\n`…, `\xHH`,
+    `\uHHHH` becomes a One), and the runes of the children, in pattern order, are exactly `s`.
+    IgnoreCase is excluded (`hi`): it turns cased letters into sets, which is not "literal meaning".
+    Oracle hypotheses as in `escape_parses_as_literal`. -/
+theorem escape_parses_as_literal_full (isPrint : Nat → Bool) (orc : Parser.Oracles)
+    (hW : ∀ c, Generated.metaChars.contains c = true → orc.isWord c = false)
+    (hP : ∀ c, 9 ≤ c → c ≤ 13 → isPrint c = false)
+    (opts : Parser.Opts) (hi : opts.i = false) (mco : Bool) (s : List Nat) :
+    ∃ c, Parser.parse { pat := escape isPrint s, opts := opts, mco := mco, orc := orc } =
+        .ok { root := literalRoot opts c,
+              tables := Parser.noGroupTables { pat := escape isPrint s, opts := opts, mco := mco, orc := orc } } ∧
+      spells c s ∧ c.t = .concatenate ∧ c.o = opts ∧
+      (Parser.noGroupTables { pat := escape isPrint s, opts := opts, mco := mco, orc := orc }).caps = [0] := by
+  obtain ⟨ks, h1, h2⟩ := Parser.ef_parse { pat := escape isPrint s, opts := opts, mco := mco, orc := orc }
+    isPrint hW hP s rfl hi
+  refine ⟨.mk .concatenate opts 0 [] none 0 0 (if opts.r then ks.reverse else ks), h1, Or.inr ⟨rfl, ?_⟩, rfl, rfl,
+    (Parser.noGroupTables_caps _).1⟩
+  simp only [Parser.RNode.o, Parser.RNode.kids]
+  by_cases hr : opts.r = true <;> simp [hr, h2]
+
+/-- the full-model options of a `ParseOpts` (the four options that change how a literal is read), the others
+    given separately -/
+def fullOpts (o : ParseOpts) (m n s r : Bool) : Parser.Opts :=
+  { i := false, m := m, n := n, s := s, x := o.x, r := r, e := o.ecma, re2 := o.re2, u := o.u }
+
+/-- **The two parser models agree on `Escape`'s output** — the statement the audit asked for, mentioning both
+    `parseLit` and `Parser.parse`: under each of the 16 option sets of `escape_parses_as_literal` (and whatever
+    Multiline / ExplicitCapture / Singleline / RightToLeft are), the small model reads `Escape s` as the literal
+    `s` and the full model builds a tree that spells `s`. -/
+theorem parseLit_and_parse_agree_on_escape (isPrint : Nat → Bool) (orc : Parser.Oracles)
+    (hW : ∀ c, Generated.metaChars.contains c = true → orc.isWord c = false)
+    (hP : ∀ c, 9 ≤ c → c ≤ 13 → isPrint c = false)
+    (o : ParseOpts) (m n sl r mco : Bool) (s : List Nat) :
+    parseLit o orc.isWord (escape isPrint s) = some s ∧
+    ∃ c t, Parser.parse { pat := escape isPrint s, opts := fullOpts o m n sl r, mco := mco, orc := orc } = .ok t ∧
+      t.root = literalRoot (fullOpts o m n sl r) c ∧ spells c s := by
+  refine ⟨escape_parses_as_literal isPrint orc.isWord hW hP o s, ?_⟩
+  obtain ⟨c, h1, h2, _⟩ := escape_parses_as_literal_full isPrint orc hW hP (fullOpts o m n sl r) rfl mco s
+  exact ⟨c, _, h1, rfl, h2⟩
+
+
+/-- **Any option set, IgnoreCase included** (what "keeps literal meaning" excludes, stated as what the parser
+    really builds).  `Parse(Escape(s))` never fails: the tree is the root Capture 0 over the concatenation
+    (`Parser.litRoot`: children reversed under RightToLeft) of `Parser.EscKids … s`: `s` cut into the maximal runs
+    of runes `Escape` writes raw and the escaped runes in between, where
+    * an escaped rune `r` gives `newRegexNodeCh(One, toLower r)` under IgnoreCase (`Parser.escNode`), the One
+      node of `r` otherwise;
+    * a run of one rune gives `newRegexNodeCh(One, r)`; a longer run gives ONE Multi node (IgnoreCase cleared)
+      unless IgnoreCase is on and a rune of the run takes part in case conversion — then one
+      `newRegexNodeCh(One, r)` per rune (`Parser.runKidsG`);
+    * `newRegexNodeCh` (`Parser.nodeCh`) under IgnoreCase turns a cased letter into the Set node of the letter
+      and its case equivalences and leaves every other rune a One node.
+    So under IgnoreCase the pattern is still a concatenation of single-rune tests in the order of `s`, each
+    cased letter widened to its case-equivalence set — the reading the property excludes from "literal". -/
+theorem escape_parse_tree_any_options (isPrint : Nat → Bool) (orc : Parser.Oracles)
+    (hW : ∀ c, Generated.metaChars.contains c = true → orc.isWord c = false)
+    (hP : ∀ c, 9 ≤ c → c ≤ 13 → isPrint c = false)
+    (opts : Parser.Opts) (mco : Bool) (s : List Nat) :
+    ∃ ks, Parser.parse { pat := escape isPrint s, opts := opts, mco := mco, orc := orc } =
+        .ok { root := Parser.litRoot opts ks,
+              tables := Parser.noGroupTables { pat := escape isPrint s, opts := opts, mco := mco, orc := orc } } ∧
+      Parser.EscKids { pat := escape isPrint s, opts := opts, mco := mco, orc := orc } isPrint opts s ks :=
+  Parser.ef_parse_any { pat := escape isPrint s, opts := opts, mco := mco, orc := orc } isPrint hW hP s rfl
+
+/-! #### from the tree to the specification -/
+
+/-- the specification pattern the reducer slice assigns to a raw tree read in direction `rtl`
+    (`RewriteDecisions.toPat rtl ∘ Reduce.toR ∘ Reduce.ofRaw`: the denotation `Props/C01.lean` part (ii) and the
+    `RewriteDecisions` soundness theorems speak about; `rtl` = the tree's RightToLeft option, as in
+    `Compile.toPatRoot X ti.rtl`) -/
+def rawDenotation (rtl : Bool) (root : Parser.RNode) : Spec.Pat :=
+  RewriteDecisions.toPat rtl (Reduce.toR (Reduce.ofRaw root))
+
+/-- **A literal tree matches exactly its text** (specification level, left to right).  If the Concatenate `c`
+    spells `w` (and is not RightToLeft), then the denotation of the tree `literalRoot opts c`, started in any state
+    `st` on any text, has exactly one success when the text continues with `w` at `st.pos` — it ends right after
+    `w` and records group 0 over it — and no success otherwise. -/
+theorem lit_tree_matches_exactly (e : Spec.Env) (opts : Parser.Opts) (c : Parser.RNode) (w : List Nat)
+    (hs : spells c w) (hc : c.t = .concatenate) (hr : c.o.r = false) (st : Spec.St) :
+    Spec.m e (rawDenotation false (literalRoot opts c)) false st =
+      if (e.text.drop st.pos).take w.length = w then
+        [{ pos := st.pos + w.length, caps := st.caps ++ [(0, st.pos, w.length)] }] else [] := by
+  obtain ⟨t, o, ch, str, set, m, n, kids⟩ := c
+  simp only [Parser.RNode.t] at hc
+  subst hc
+  have hk : Parser.kidsRunes kids = some w := by
+    rcases hs with h | ⟨_, h⟩
+    · cases set <;> cases kids <;> simp [Parser.leafRunes] at h
+    · simpa [Parser.RNode.o, Parser.RNode.kids, show o.r = false from hr] using h
+  exact Lemmas.EscapeSpec.m_litRoot e opts o ch str set m n kids w hk st
+
+/-- **The same right to left**: if the RightToLeft Concatenate `c` spells `w` (its children are stored reversed),
+    the denotation read right to left has exactly one success when the text BEFORE `st.pos` ends with `w` — it
+    ends right before `w`, group 0 over it — and none otherwise. -/
+theorem lit_tree_matches_exactly_rtl (e : Spec.Env) (opts : Parser.Opts) (c : Parser.RNode) (w : List Nat)
+    (hs : spells c w) (hc : c.t = .concatenate) (hr : c.o.r = true) (st : Spec.St) :
+    Spec.m e (rawDenotation true (literalRoot opts c)) true st =
+      if w.length ≤ st.pos ∧ (e.text.drop (st.pos - w.length)).take w.length = w then
+        [{ pos := st.pos - w.length, caps := st.caps ++ [(0, st.pos - w.length, w.length)] }] else [] := by
+  obtain ⟨t, o, ch, str, set, m, n, kids⟩ := c
+  simp only [Parser.RNode.t] at hc
+  subst hc
+  have hk : Parser.kidsRunes kids.reverse = some w := by
+    rcases hs with h | ⟨_, h⟩
+    · cases set <;> cases kids <;> simp [Parser.leafRunes] at h
+    · simpa [Parser.RNode.o, Parser.RNode.kids, show o.r = true from hr] using h
+  have := Lemmas.EscapeSpec.m_litRoot_rtl e opts o ch str set m n kids.reverse w hk st
+  rw [List.reverse_reverse] at this
+  exact this
+
+/-- **C19, the chain Escape → parser → tree → specification** (no IgnoreCase; both directions): `Parse(Escape(s))`
+    succeeds and the specification pattern of its raw tree, read in the pattern's direction, matches from any
+    position of any text exactly the occurrence of `s` at that position (left to right: starting there; right to
+    left: ending there) — one success, group 0 = that occurrence — and nothing else.
+    NOT included (not a Lean theorem anywhere in the framework, see `Props/C01.lean` (ii)): that the reducer
+    (`Reduce.reduceTree`, which turns this tree into the one the writer compiles) keeps the denotation; from the
+    reduced tree on, `compile_correct` (C01: One/Multi/Concatenate are tier 1) ties the program to `Spec.m`. -/
+theorem escape_matches_exactly (isPrint : Nat → Bool) (orc : Parser.Oracles)
+    (hW : ∀ c, Generated.metaChars.contains c = true → orc.isWord c = false)
+    (hP : ∀ c, 9 ≤ c → c ≤ 13 → isPrint c = false)
+    (opts : Parser.Opts) (hi : opts.i = false) (mco : Bool) (s : List Nat) :
+    ∃ t, Parser.parse { pat := escape isPrint s, opts := opts, mco := mco, orc := orc } = .ok t ∧
+      ∀ (e : Spec.Env) (st : Spec.St), Spec.m e (rawDenotation opts.r t.root) opts.r st =
+        if opts.r then
+          (if s.length ≤ st.pos ∧ (e.text.drop (st.pos - s.length)).take s.length = s then
+            [{ pos := st.pos - s.length, caps := st.caps ++ [(0, st.pos - s.length, s.length)] }] else [])
+        else
+          (if (e.text.drop st.pos).take s.length = s then
+            [{ pos := st.pos + s.length, caps := st.caps ++ [(0, st.pos, s.length)] }] else []) := by
+  obtain ⟨c, h1, h2, h3, h4, _⟩ := escape_parses_as_literal_full isPrint orc hW hP opts hi mco s
+  refine ⟨_, h1, fun e st => ?_⟩
+  cases hr : opts.r
+  · simpa using lit_tree_matches_exactly e opts c s h2 h3 (by rw [h4]; exact hr) st
+  · simpa using lit_tree_matches_exactly_rtl e opts c s h2 h3 (by rw [h4]; exact hr) st
+
+/-- **Anchored at both ends, it matches the text `s` and nothing else**: the specification pattern of the tree of
+    `Escape s`, started with no captures at the start of the text (at its end, for a RightToLeft pattern), has a
+    success that reaches the other end of the text if and only if the text is `s`. -/
+theorem escape_anchored_matches_only_s (isPrint : Nat → Bool) (orc : Parser.Oracles)
+    (hW : ∀ c, Generated.metaChars.contains c = true → orc.isWord c = false)
+    (hP : ∀ c, 9 ≤ c → c ≤ 13 → isPrint c = false)
+    (opts : Parser.Opts) (hi : opts.i = false) (mco : Bool) (s : List Nat) :
+    ∃ t, Parser.parse { pat := escape isPrint s, opts := opts, mco := mco, orc := orc } = .ok t ∧
+      ∀ (e : Spec.Env), (∃ st' ∈ Spec.m e (rawDenotation opts.r t.root) opts.r
+          { pos := if opts.r then e.text.length else 0, caps := [] },
+        st'.pos = if opts.r then 0 else e.text.length) ↔ e.text = s := by
+  obtain ⟨t, h1, h2⟩ := escape_matches_exactly isPrint orc hW hP opts hi mco s
+  refine ⟨t, h1, fun e => ?_⟩
+  rw [h2]
+  cases hr : opts.r
+  · simp only [Bool.false_eq_true, if_false, List.drop_zero, Nat.zero_add]
+    constructor
+    · rintro ⟨st', hmem, hpos⟩
+      split at hmem
+      · rename_i htake
+        simp at hmem
+        subst hmem
+        simp only at hpos
+        rw [← htake, hpos, List.take_length]
+      · simp at hmem
+    · intro h
+      rw [h]
+      simp
+  · simp only [if_true]
+    constructor
+    · rintro ⟨st', hmem, hpos⟩
+      split at hmem
+      · rename_i hcond
+        simp at hmem
+        subst hmem
+        simp only at hpos
+        have hlen : e.text.length = s.length := by omega
+        have := hcond.2
+        rw [hlen, Nat.sub_self, List.drop_zero, ← hlen, List.take_length] at this
+        exact this
+      · simp at hmem
+    · intro h
+      rw [h]
+      simp
+
+/-- non-vacuity of `lit_tree_matches_exactly`: the tree of `a\.b`; on the text `xa.b` it matches at position 1
+    and not at position 0 -/
+example : spells (.mk .concatenate {} 0 [] none 0 0
+    [.mk .one {} 97 [] none 0 0 [], .mk .one {} 46 [] none 0 0 [], .mk .one {} 98 [] none 0 0 []]) [97, 46, 98] := by
+  decide
+example : Spec.m { text := [120, 97, 46, 98], textstart := 0, named := [], word := [], fold := [] }
+    (rawDenotation false (literalRoot {} (.mk .concatenate {} 0 [] none 0 0
+      [.mk .one {} 97 [] none 0 0 [], .mk .multi {} 0 [46, 98] none 0 0 []]))) false { pos := 1, caps := [] } =
+    [{ pos := 4, caps := [(0, 1, 3)] }] := by decide +kernel
+/-- right to left, the children stored reversed: from position 4 back to 1 -/
+example : Spec.m { text := [120, 97, 46, 98], textstart := 0, named := [], word := [], fold := [] }
+    (rawDenotation true (literalRoot { r := true } (.mk .concatenate { r := true } 0 [] none 0 0
+      [.mk .multi { r := true } 0 [46, 98] none 0 0 [], .mk .one { r := true } 97 [] none 0 0 []]))) true
+    { pos := 4, caps := [] } = [{ pos := 1, caps := [(0, 1, 3)] }] := by decide +kernel
+example : Spec.m { text := [120, 97, 46, 98], textstart := 0, named := [], word := [], fold := [] }
+    (rawDenotation false (literalRoot {} (.mk .concatenate {} 0 [] none 0 0
+      [.mk .one {} 97 [] none 0 0 [], .mk .multi {} 0 [46, 98] none 0 0 []]))) false { pos := 0, caps := [] } = [] := by
+  decide +kernel
+
+/-! #### non-vacuity and sensitivity on the full model
+
+The kernel evaluates `Parser.parse` on these small inputs (`decide +kernel`: the proof term is
+`of_decide_eq_true (Eq.refl true)`, checked by the kernel alone; the elaborator's own evaluator is too slow on the
+monadic parser). -/
+
+/-- an oracle record for the examples: ASCII word characters, no case mapping (`hW` holds: see above) -/
+def orcA : Parser.Oracles where
+  isWord := asciiWord
+  ecmaStart := fun _ => false
+  ecmaPart := fun _ => false
+  toLower := fun r => r
+  isLower := fun c => decide (97 ≤ c ∧ c ≤ 122)
+  isUpper := fun c => decide (65 ≤ c ∧ c ≤ 90)
+  orbit := fun _ => []
+  participates := fun c => decide (65 ≤ c ∧ c ≤ 90 ∨ 97 ≤ c ∧ c ≤ 122)
+  cat := fun _ _ => false
+  catName := fun _ => none
+
+def envA (opts : Parser.Opts) (pat : List Nat) : Parser.Env := { pat := pat, opts := opts, mco := false, orc := orcA }
+
+/-- what the full parser model makes of a pattern, if it is a literal tree: the runes it spells and the node types
+    of the children of its concatenation (9 = One, 12 = Multi), both in pattern order -/
+def parsedSpelling (E : Parser.Env) : Option (List Nat × List Nat) :=
+  match Parser.parse E with
+  | .ok t =>
+    match t.root with
+    | .mk .capture _ _ _ _ 0 (-1) [.mk .alternate _ _ _ _ _ _ [c]] =>
+      let ks := if c.o.r then c.kids.reverse else c.kids
+      (Parser.kidsRunes ks).map fun w => (w, ks.map fun k => k.t.toNat)
+    | _ => none
+  | _ => none
+
+/-- the node types of the children of the concatenation (9 = One, 11 = Set, 12 = Multi), pattern order -/
+def parsedKinds (E : Parser.Env) : Option (List Nat) :=
+  match Parser.parse E with
+  | .ok t =>
+    match t.root with
+    | .mk .capture _ _ _ _ 0 (-1) [.mk .alternate _ _ _ _ _ _ [c]] =>
+      some ((if c.o.r then c.kids.reverse else c.kids).map fun k => k.t.toNat)
+    | _ => none
+  | _ => none
+
+/-- IgnoreCase: `ab1.` → `ab1\.`: the run `ab1` has letters, so one node per rune — two Sets and a One — then the
+    One of the escaped `.`; the run `12` (nothing takes part in case conversion) stays one Multi -/
+example : parsedKinds (envA { i := true } (escape asciiPrint [97, 98, 49, 46])) = some [11, 11, 9, 9] := by
+  decide +kernel
+example : parsedKinds (envA { i := true } (escape asciiPrint [49, 50, 46])) = some [12, 9] := by decide +kernel
+
+/-- `a.b` → `a\.b`: three One nodes -/
+example : parsedSpelling (envA {} (escape asciiPrint [97, 46, 98])) = some ([97, 46, 98], [9, 9, 9]) := by
+  decide +kernel
+
+/-- `1+1=2 # x` under IgnorePatternWhitespace → `1\+1=2\ \#\ x`: the blanks and the `#` survive -/
+example : parsedSpelling (envA { x := true } (escape asciiPrint [49, 43, 49, 61, 50, 32, 35, 32, 120])) =
+    some ([49, 43, 49, 61, 50, 32, 35, 32, 120], [9, 9, 12, 9, 9, 9, 9]) := by decide +kernel
+
+/-- `ab`, a tab, U+00E9, U+0378, a non-printable astral rune and `c` under ECMAScript + Unicode + RightToLeft +
+    IgnorePatternWhitespace → `ab\t\xe9͸` + raw U+E0001 + `c`: Multi, three One, Multi -/
+example : parsedSpelling (envA { e := true, u := true, r := true, x := true }
+      (escape asciiPrint [97, 98, 9, 0xE9, 0x378, 0xE0001, 99])) =
+    some ([97, 98, 9, 0xE9, 0x378, 0xE0001, 99], [12, 9, 9, 9, 12]) := by decide +kernel
+
+/-- the hypothesis `hi` is needed: under IgnoreCase the letter `a` becomes a Set node — not a literal tree -/
+example : parsedSpelling (envA { i := true } (escape asciiPrint [97])) = none := by decide +kernel
+
+/-- without escaping, IgnorePatternWhitespace drops the blank and the comment (the full model's reading of the
+    raw text `a b#c`), and `a.b` is not a literal tree -/
+example : parsedSpelling (envA { x := true } [97, 32, 98, 35, 99]) = some ([97, 98], [9, 9]) := by decide +kernel
+example : parsedSpelling (envA {} [97, 46, 98]) = none := by decide +kernel
+
+/-- **seeded mutation C19-astral-xbrace on the full model**: the mutant `escape` is still read as the literal under
+    the default options, but under ECMAScript the full parser spells `tx{e0001}` -/
+example : parsedSpelling (envA {} (escapeXBrace asciiPrint [116, 0xE0001])) = some ([116, 0xE0001], [9, 9]) := by
+  decide +kernel
+example : parsedSpelling (envA { e := true } (escapeXBrace asciiPrint [116, 0xE0001])) =
+    some ([116, 120, 123, 101, 48, 48, 48, 49, 125], [9, 9, 12]) := by decide +kernel
 
 end RegexVerif.Props.C19
